@@ -2,6 +2,7 @@ import Driver.Util
 import MpcVerif.Model.Gmw
 import MpcVerif.Model.GmwHist
 import MpcVerif.Model.GmwInt
+import MpcVerif.Model.GmwMsgs
 import MpcVerif.Model.LevelsMod
 
 namespace Drv.C10
@@ -312,8 +313,20 @@ def handleTb (n words as bs ss rs ds : String) : String :=
     ",".intercalate ((List.range n).map fun p => wordsHex (tripleBatch n words I p).c words)
   | _, _, _, _, _, _ => "bad-op"
 
+/-- `msgs <sizes> <words of every AND batch | -> <output-share bytes per party>`: bytes every party sends on its
+online connections during the run = `sentBytes` of the model's message transcript (`Model/GmwMsgs.lean`). -/
+def handleMsgs (sizes bw ol : String) : String :=
+  let bwL := if bw == "-" then some [] else (splitC bw).mapM String.toNat?
+  match (splitC sizes).mapM String.toNat?, bwL, (splitC ol).mapM String.toNat? with
+  | some sz, some ws, some ol =>
+    if ol.length != sz.length then "bad-op" else
+    let t := transcript sz ws (fun p => ol.getD p 0)
+    "s=" ++ ",".intercalate ((List.range sz.length).map fun p => toString (sentBytes t p))
+  | _, _, _ => "bad-op"
+
 def handle (args : List String) : String :=
   match args with
+  | ["msgs", sizes, bw, ol] => handleMsgs sizes bw ol
   | ["run", sizes, nw, nin, nout, gates, xs, rnd, pools] => handleRun sizes nw nin nout gates xs rnd pools
   | "hist" :: pools :: rest => handleHist pools rest
   | ["runi", sizes, nw, nin, nout, gates, ints, rnd, pools] => handleRunI sizes nw nin nout gates ints rnd pools
